@@ -39,6 +39,8 @@ func init() {
 			return map[string]int64{"bit255=1": 100, "pow2": 256, "scalars": 1000, "history-cases": 400, "via:cselect1": 10, "via:random": 10, "via:decode": 10, "bits:position-seen-as-0-or-1": 512}
 		},
 	})
+
+	Registry["C14"].ColdStart = func(c *mon.Ctx) { c14RunConc(c, c.Seed*7919+uint64(c.Shard)+1) }
 }
 
 func c14Generate(c *mon.Ctx) {
@@ -84,6 +86,9 @@ func c14Generate(c *mon.Ctx) {
 		v := gen.Draw(r, n)
 		return &c14Case{S: fmt.Sprintf("%x", v.X), Class: v.Class}
 	})
+
+	// and again at the end of the shard, when the process has a history behind it
+	concBatches(c, c.N(4, 200), func(seed uint64) any { return &c14Case{Conc: seed + 50000} })
 }
 
 func c14Run(c *mon.Ctx, csAny any) {
